@@ -449,7 +449,11 @@ func genC36(tier string, seed uint64, idx int) *simkit.Plan {
 		case 4:
 			p.Add(simkit.St("repl", rng.Uint64(), "act", "sync"))
 		default:
-			p.Add(simkit.St("repl", rng.Uint64(), "act", "redeliver", "k", rng.Range(1, 6)))
+			if rng.Chance(1, 4) {
+				p.Add(simkit.St("repl", rng.Uint64(), "act", "lose"))
+			} else {
+				p.Add(simkit.St("repl", rng.Uint64(), "act", "redeliver", "k", rng.Range(1, 6)))
+			}
 		}
 	}
 	return p
@@ -465,7 +469,7 @@ func genC19(tier string, seed uint64, idx int) *simkit.Plan {
 		p.SetC("noprefix", 1) // a store without native prefix listing: FilerStoreWrapper's generic path
 	}
 	// request shapes that the recorded findings are about appear only in a fraction of the runs
-	oddPatterns := rng.Chance(1, 5)   // no wildcard at all; ? or [ ] before the first *
+	oddPatterns := rng.Chance(1, 5) // no wildcard at all; ? or [ ] before the first *
 	startBelowPrefix := rng.Chance(1, 4)
 	pool := []string{"a", "a1", "a2", "ab", "abc", "abd", "b", "b1", "ba", "c1", "c2", "ca", "x.txt", "y.txt", "z.log", "zz"}
 	rng.Shuffle(len(pool), func(i, j int) { pool[i], pool[j] = pool[j], pool[i] })
